@@ -272,7 +272,21 @@ func allocBounds(ms *ssa.MakeSlice, sz ssa.Value, fn *ssa.Function) (lower, uppe
 	if w, signed, ok := typeWidth(core.Type()); ok && !signed && w <= 16 {
 		return true, true, fmt.Sprintf("uint%d", w)
 	}
-	is := func(v ssa.Value) bool { return strip(v) == core }
+	is := func(v ssa.Value) bool {
+		v = strip(v)
+		if v == core {
+			return true
+		}
+		// two loads of the same local variable (filled through a pointer by a panic-reader)
+		l1, ok1 := v.(*ssa.UnOp)
+		l2, ok2 := core.(*ssa.UnOp)
+		if ok1 && ok2 && l1.Op == token.MUL && l2.Op == token.MUL {
+			if a1, ok := l1.X.(*ssa.Alloc); ok && l1.X == l2.X && len(storesTo(a1)) == 0 {
+				return true
+			}
+		}
+		return false
+	}
 	r := RangeAt(ms.Block(), is)
 	lower = r.HasLo() && r.Lo >= 0
 	upper = r.HasHi()
